@@ -81,6 +81,9 @@ def check_forwarding(ctx, res: Result, callers: Iterable[str], rule="F-FWD"):
         if not forwarded and opaque_star:
             res.unknown(rule, f, text, f"{cf.callee.short}:forwarded", "arguments are passed through * / ** unpacking: what is forwarded is not visible at the call", where)
             continue
+        if not forwarded and _under_opaque_filter_test(ctx, cf, [p for p, s_ in state.items() if s_ is not True]):
+            res.unknown(rule, f, text, f"{cf.callee.short}:forwarded", "the unfiltered call stands under a test computed from the caller's filters by a predicate that is not a plain None test (an `is_open`-style helper): whether the filters are absent there is not decided", where)
+            continue
         res.check(
             bool(forwarded),
             rule,
@@ -116,6 +119,32 @@ def _subsumed(ctx, cf):
                 if tid is not None and v.cfg.dominates(tid, cid) and tid != cid:
                     out.add(st.value.left.id)
     return out
+
+
+def _under_opaque_filter_test(ctx, cf, open_filters) -> bool:
+    """the call is control-dependent on an `if` whose test hands every still-open filter to a call (a predicate over them)"""
+    if not open_filters:
+        return False
+    v = ctx.view(cf.caller)
+    cid = v.cfg_id(cf.node)
+    if cid is None:
+        return False
+    for iff in walk_no_nested(cf.caller.node):
+        if not isinstance(iff, (ast.If, ast.IfExp)):
+            continue
+        tid = v.cfg.by_ast.get(id(iff.test))
+        if tid is None or tid == cid:
+            continue
+        t_i = v.inline(iff.test)
+        in_calls = set()
+        for c in ast.walk(t_i):
+            if isinstance(c, ast.Call):
+                in_calls |= {x.id for a in list(c.args) + [k.value for k in c.keywords] for x in ast.walk(a) if isinstance(x, ast.Name)}
+        if not set(open_filters) <= in_calls:
+            continue
+        if any(v.cfg.branch_dominated(tid, lab, cid) for lab in ("T", "F")):
+            return True
+    return False
 
 
 def _carriers(ctx, cf, fp):
